@@ -251,6 +251,91 @@ def history_section(rep, rng, tier):
         rep.broken.append('correspondence:kevent-history (%d of %d cases differ)' % (sec['mismatches'], sec['cases']))
 
 
+_FRESH = r"""
+import sys
+sys.path.insert(0, sys.argv[1])
+from pykdebugparser.kevent import from_kd_buf
+recs = sys.stdin.buffer.read()
+n = len(recs) // 64
+bad = []
+for i in range(n):
+    r = recs[64 * i:64 * i + 64]
+    e = from_kd_buf(r)
+    d = int.from_bytes(r[48:52], 'little')
+    ok = (e.timestamp == int.from_bytes(r[0:8], 'little') and e.data == r[8:40]
+          and tuple(e.values) == tuple(int.from_bytes(r[8 + 8 * k:16 + 8 * k], 'little') for k in range(4))
+          and e.tid == int.from_bytes(r[40:48], 'little') and e.debugid == d and e.eventid == d - d % 4
+          and e.func_qualifier == d % 4)
+    if not ok:
+        bad.append(i)
+print(','.join(map(str, bad)))
+"""
+
+
+def fresh_bad_indices(blob):
+    """Decodes the records of `blob` (64 bytes each), in order, in a FRESH interpreter; indices whose decoding is not the
+    little-endian reading of the record."""
+    import subprocess
+    p = subprocess.run([core.PY, '-c', _FRESH, core.REPO], input=blob, capture_output=True, timeout=600)
+    out = p.stdout.decode().strip()
+    if p.returncode != 0:
+        return None
+    return [int(x) for x in out.split(',')] if out else []
+
+
+def birthday_section(rep, rng, tier):
+    """A decoder that remembers earlier records under a SHORT key (a checksum / truncated hash of some bytes of the record)
+    answers a later record with an earlier one's fields once two keys coincide.  No single record shows that; among n
+    records with random contents some pair coincides under any k-bit key once n is a few times 2^(k/2) (birthday bound):
+    2^18 records make a collision of a 32-bit key all but certain (1 - exp(-n^2 / 2^33) > 0.999).  All records are decoded
+    in ONE fresh interpreter, each result is compared with the little-endian reading of its own record; a failing history
+    is bisected down to the two records involved."""
+    import os
+    sec = rep.section('kevent-birthday')
+    n = (1 << 18) if tier == 'quick' else (1 << 20)
+    sec['rule'] = ('%d records with random contents decoded one after the other in one fresh interpreter, four streams: only '
+                   'the 32 argument bytes vary / only timestamp / only tid+debugid / everything varies; every decoded field '
+                   'must be the little-endian field of ITS record (oracle on the code alone); a failing stream is bisected to '
+                   'a two-record history' % n)
+    base = bytearray(rng.randbytes(64))
+    streams_ = []
+    for what, lo, hi in (('argument bytes', 8, 40), ('timestamp', 0, 8), ('tid and debugid', 40, 52), ('all fields', 0, 64)):
+        rnd = rng.randbytes((hi - lo) * (n // 4 if what != 'argument bytes' else n))
+        cnt = len(rnd) // (hi - lo)
+        blob = bytearray(64 * cnt)
+        for i in range(cnt):
+            blob[64 * i:64 * i + 64] = base
+            blob[64 * i + lo:64 * i + hi] = rnd[(hi - lo) * i:(hi - lo) * (i + 1)]
+        streams_.append((what, bytes(blob)))
+    for what, blob in streams_:
+        cnt = len(blob) // 64
+        sec['cases'] += cnt
+        bad = fresh_bad_indices(blob)
+        if bad is None:
+            rep.notes.append('kevent-birthday: the fresh interpreter failed on stream %r' % what)
+            continue
+        if not bad:
+            sec['distinct_nontrivial'] += cnt
+            continue
+        i = bad[0]
+        probe = blob[64 * i:64 * i + 64]
+        lo_, hi_ = 0, i                      # the poisoning record lies in [lo_, hi_)
+        while hi_ - lo_ > 1:
+            mid = (lo_ + hi_) // 2
+            b = fresh_bad_indices(blob[64 * lo_:64 * mid] + probe)
+            if b and b[-1] == mid - lo_:
+                hi_ = mid
+            else:
+                lo_ = mid
+        first = blob[64 * lo_:64 * lo_ + 64]
+        pair_bad = fresh_bad_indices(first + probe)
+        hist = [first.hex(), probe.hex()] if pair_bad else [blob[64 * k:64 * k + 64].hex() for k in range(max(0, i - 3), i + 1)]
+        rep.add_failure('kevent:after-history-collision',
+                        'stream "%s vary": record #%d is decoded with fields that are not the little-endian fields of the record '
+                        'once record #%d has been decoded in the same process (alone it decodes correctly)' % (what, i, lo_),
+                        {'section': 'kevent-birthday', 'history': hist, 'case': probe.hex(), 'stream': what})
+
+
 def correspondence(rep, rng, tier):
     cases = gen_cases(rng, tier)
     run_section(rep, 'kevent', cases,
@@ -277,6 +362,7 @@ def correspondence(rep, rng, tier):
                      'each qualifier, in every field (whole, low / top 32 bits), byte strings at every offset; random and zero '
                      'backgrounds; same oracle as `kevent`')
     history_section(rep, rng, tier)
+    birthday_section(rep, rng, tier)
 
 
 def replay(path):
@@ -284,6 +370,17 @@ def replay(path):
     with open(path) as fd:
         r = json.load(fd)
     case = r['replay']['case']
+    if r['replay'].get('section') == 'kevent-birthday':
+        hist = [bytes.fromhex(h) for h in r['replay']['history']]
+        bad = fresh_bad_indices(b''.join(hist))
+        print('records decoded one after the other in a fresh interpreter:')
+        for k, h in enumerate(hist):
+            print('   #%d %s%s' % (k, h.hex(), '   <- not the little-endian reading of this record' if bad and k in bad else ''))
+        if bad:
+            print(f'VIOLATION property=C01 replay={path}')
+            return 1
+        print('no violation on this input')
+        return 0
     if r['replay'].get('section') == 'kevent-history':
         import io
         from pykdebugparser.kd_buf_parser import KdBufParser
